@@ -8,6 +8,7 @@ import G3D.Model.Tol
 import G3D.Model.Heap
 import G3D.Model.Judge
 import G3D.Model.K5
+import G3D.Model.ExactHyp
 open G3D
 
 /-! Line-protocol driver of the executable model: one case per input line, one result line per case.
@@ -303,6 +304,13 @@ def handle (line : String) : String :=
   | "show" :: rest =>
     match objP.run rest with
     | some (.ok (.obj a), _) => showObj a
+    | some (.error e, _) => "ctor-error " ++ showCErr e
+    | some _ => "bad-op"
+    | none => "bad-op"
+  | "exacthyp" :: rest =>      -- hypotheses of the K3/K5 exactness theorems, judged on the body as the model constructor stores it
+    match objP.run rest with
+    | some (.ok (.obj (.polyhedron b)), _) => showBool b.exactHypB ++ " " ++ showBool b.validB
+    | some (.ok (.obj (.polygon g)), _) => showBool g.validB ++ " " ++ showBool g.validB
     | some (.error e, _) => "ctor-error " ++ showCErr e
     | some _ => "bad-op"
     | none => "bad-op"
